@@ -201,6 +201,20 @@ pub fn chain_structured(n: usize, directed: bool, law: u64) -> NormGraph {
     }
 }
 
+/// A hub with n - 1 neighbours (more than 2^11 from 2 050 nodes on) plus a link i -> i + 1 from
+/// every third leaf. Directed: `variant` 0 points the hub's edges outwards (the leaves do not link
+/// back), 1 inwards. Unweighted.
+pub fn hub_structured(n: usize, directed: bool, variant: u64) -> NormGraph {
+    let mut edges = vec![];
+    for i in 1..n {
+        edges.push(if variant % 2 == 0 { (0, i, f64::NAN) } else { (i, 0, f64::NAN) });
+    }
+    for i in (3..n.saturating_sub(1)).step_by(3) {
+        edges.push((i, i + 1, f64::NAN));
+    }
+    NormGraph { directed, multi: false, loops: false, n, names: (0..n).map(|i| format!("h{:04}", (i * 389 + 7) % 5003)).collect(), order: (0..n).collect(), edges, weighted: false }
+}
+
 /// A complete graph on up to 1000 nodes whose weights follow a law of the positions (`family`):
 /// 0: (i-j)^2 (every node is strictly improved by each of its predecessors in turn: n - 1
 /// decrease-key operations on the last node), 1: 1 + |i-j|^2 / 4, 2: sqrt-like concave 8 + |i-j|
@@ -380,6 +394,9 @@ impl GraphCase {
     pub fn norm(&self) -> NormGraph {
         if self.big_n > 0 && self.shape == 1 {
             return chain_structured(self.big_n.min(5000) as usize, self.kind & 1 == 1, self.big_seed);
+        }
+        if self.big_n > 0 && self.shape == 2 {
+            return hub_structured(self.big_n.min(5000) as usize, self.kind & 1 == 1, self.big_seed);
         }
         if self.big_n > 0 && self.shape == 4 {
             return dense_structured(self.big_n.min(1000) as usize, self.kind & 1 == 1, self.big_seed);
